@@ -140,6 +140,7 @@ type Cluster struct {
 	forceID          map[string]string // PREPARE token -> key of a forced prepared id
 	WarnOnUnprepared bool              // UNPREPARED answers carry a warning (v4+)
 	PreparedColumns  int               // > 0: PREPARED results describe that many result columns
+	EchoPad          int               // > 0: successful results carry that many bytes of padding
 }
 
 type Host struct {
@@ -421,6 +422,9 @@ func (c *Cluster) ForceID(token, key string) {
 	c.forceID[token] = key
 	c.mu.Unlock()
 }
+
+// SetEchoPad makes successful results big (n bytes of padding) or normal again (0).
+func (c *Cluster) SetEchoPad(n int) { c.mu.Lock(); c.EchoPad = n; c.mu.Unlock() }
 
 // ClearInternal forgets hostile replies that were queued but not consumed.
 func (c *Cluster) ClearInternal() {
@@ -788,6 +792,16 @@ func (c *Conn) echo(token string, n int) message.Message {
 	info := map[string]interface{}{"tok": token, "host": c.h.Idx, "conn": c.ID, "ks": c.Keyspace, "ver": int(c.Version), "comp": c.Comp, "attempt": n}
 	c.h.c.mu.Unlock()
 	js, _ := json.Marshal(info)
+	c.h.c.mu.Lock()
+	pad := c.h.c.EchoPad
+	c.h.c.mu.Unlock()
+	if pad > 0 {
+		// a big result: the echo plus a column of padding
+		return &message.RowsResult{
+			Metadata: &message.RowsMetadata{ColumnCount: 2, Columns: []*message.ColumnMetadata{{Keyspace: "fake", Table: "echo", Name: "echo", Type: datatype.Varchar}, {Keyspace: "fake", Table: "echo", Name: "pad", Index: 1, Type: datatype.Blob}}},
+			Data:     message.RowSet{message.Row{js, make([]byte, pad)}},
+		}
+	}
 	return &message.RowsResult{
 		Metadata: &message.RowsMetadata{ColumnCount: 1, Columns: []*message.ColumnMetadata{{Keyspace: "fake", Table: "echo", Name: "echo", Type: datatype.Varchar}}},
 		Data:     message.RowSet{message.Row{js}},
